@@ -200,6 +200,7 @@ harnesses! {
     e2n_c04_fixed_tx [native 0] => battery::c04_fixed_tx;
     e2n_c13_send_all [native 0] => battery::c13_send_all;
     e2n_c16_sets [native 0] => battery::c16_sets;
+    e2n_c18_declared_signers [native 0] => battery::c18_declared_signers;
     e2n_c07_add_output [native 0] => battery::c07_add_output;
     e2n_c16_repeat_build [native 0] => battery::c16_repeat_build;
     e2n_c08_largest_first [native 0] => battery::c08_largest_first;
